@@ -105,3 +105,133 @@ impl<R: RngCore> RngCore for Bounded<R> {
 /// draw budget for one signature: 64 times what an ordinary signature consumes (2n sampler calls of
 /// about two 17-byte iterations each)
 pub const SIGN_DRAW_LIMIT: u64 = 64 * 2 * 1024 * 2 * 17;
+
+/// Role-aware environment for `sign`: the salt and the per-attempt seed come from fill_bytes, every
+/// sampler iteration is exactly 17 next_u32 draws (9 BaseSampler + 1 sign + 7 BerExp). Default answers
+/// are the next outputs of a fixed ChaCha20 stream (an honest run); `forced` replaces the 17 bytes of
+/// chosen iterations (counted from the start of the signature).
+pub struct SignEnv {
+    base: rand_chacha::ChaCha20Rng,
+    forced: std::collections::BTreeMap<u64, [u8; 17]>,
+    pub iter: u64,
+    pos: usize,
+    cur: Option<[u8; 17]>,
+    pub words: u64,
+    limit: u64,
+    pub misaligned_fill: bool,
+    pub forced_served: u64,
+    /// every completed 17-byte sampler iteration as served (low bytes), in order
+    pub log: Vec<[u8; 17]>,
+    cur_served: [u8; 17],
+    pub keep_log: bool,
+    pub salt: Vec<u8>,
+}
+
+impl SignEnv {
+    pub fn new(stream: u64, forced: std::collections::BTreeMap<u64, [u8; 17]>) -> Self {
+        use rand::SeedableRng;
+        SignEnv {
+            base: rand_chacha::ChaCha20Rng::seed_from_u64(0x5eed_0000_0000_0000 ^ stream),
+            forced,
+            iter: 0,
+            pos: 0,
+            cur: None,
+            words: 0,
+            limit: SIGN_DRAW_LIMIT,
+            misaligned_fill: false,
+            forced_served: 0,
+            log: vec![],
+            cur_served: [0u8; 17],
+            keep_log: false,
+            salt: vec![],
+        }
+    }
+    pub fn logging(mut self) -> Self {
+        self.keep_log = true;
+        self
+    }
+}
+
+impl RngCore for SignEnv {
+    fn next_u32(&mut self) -> u32 {
+        self.words += 1;
+        if self.words > self.limit {
+            std::panic::panic_any(HORIZON_PANIC);
+        }
+        if self.pos == 0 {
+            self.cur = self.forced.get(&self.iter).copied();
+            if self.cur.is_some() {
+                self.forced_served += 1;
+            }
+        }
+        let honest = self.base.next_u32();
+        let v = match &self.cur {
+            Some(bytes) => (honest & 0xffff_ff00) | bytes[self.pos] as u32,
+            None => honest,
+        };
+        self.cur_served[self.pos] = v as u8;
+        self.pos += 1;
+        if self.pos == 17 {
+            self.pos = 0;
+            self.iter += 1;
+            if self.keep_log {
+                self.log.push(self.cur_served);
+            }
+        }
+        v
+    }
+    fn next_u64(&mut self) -> u64 {
+        let lo = self.next_u32() as u64;
+        let hi = self.next_u32() as u64;
+        (hi << 32) | lo
+    }
+    fn fill_bytes(&mut self, dest: &mut [u8]) {
+        if self.pos != 0 {
+            // the code under test no longer draws as the role model assumes: stop steering
+            self.misaligned_fill = true;
+            self.forced.clear();
+            self.pos = 0;
+        }
+        self.words += (dest.len() as u64 + 3) / 4;
+        self.base.fill_bytes(dest);
+        if dest.len() == 40 && self.salt.is_empty() {
+            self.salt = dest.to_vec();
+        }
+    }
+    fn try_fill_bytes(&mut self, dest: &mut [u8]) -> Result<(), rand::Error> {
+        self.fill_bytes(dest);
+        Ok(())
+    }
+}
+
+/// Installable handle to an environment the harness keeps a second reference to (so counters can be
+/// read after the call).
+pub struct Shared<R: RngCore + Send>(pub std::sync::Arc<std::sync::Mutex<R>>);
+
+impl<R: RngCore + Send> RngCore for Shared<R> {
+    fn next_u32(&mut self) -> u32 {
+        self.0.lock().unwrap_or_else(|e| e.into_inner()).next_u32()
+    }
+    fn next_u64(&mut self) -> u64 {
+        self.0.lock().unwrap_or_else(|e| e.into_inner()).next_u64()
+    }
+    fn fill_bytes(&mut self, dest: &mut [u8]) {
+        self.0.lock().unwrap_or_else(|e| e.into_inner()).fill_bytes(dest)
+    }
+    fn try_fill_bytes(&mut self, dest: &mut [u8]) -> Result<(), rand::Error> {
+        self.fill_bytes(dest);
+        Ok(())
+    }
+}
+
+/// run `f` with `env` installed as the signer's RNG on this thread; returns f's result (panics
+/// propagate after the environment is removed) and leaves `env` readable by the caller
+pub fn with_env<R: RngCore + Send + 'static, T>(env: &std::sync::Arc<std::sync::Mutex<R>>, f: impl FnOnce() -> T) -> T {
+    falcon_rust::verif_hooks::install_rng(Box::new(Shared(env.clone())));
+    let r = std::panic::catch_unwind(std::panic::AssertUnwindSafe(f));
+    falcon_rust::verif_hooks::uninstall_rng();
+    match r {
+        Ok(v) => v,
+        Err(e) => std::panic::resume_unwind(e),
+    }
+}
